@@ -23,6 +23,11 @@ import (
 	"github.com/valyala/fasthttp"
 )
 
+// connHook, when set by a property's harness, is called at the start of the scripted handler ("dispatch"), after the
+// scripted response options were applied and before te=1 ("options"), and when the server closes the connection
+// ("close", ctx == nil). nil = no effect.
+var connHook func(where string, ctx *fasthttp.RequestCtx)
+
 type connEvent struct {
 	Kind string // "state", "dispatch", "write", "starve", "close", "hjread", "hjdone", "panic"
 	S    string
@@ -101,6 +106,9 @@ func (c *scriptConn) Close() error {
 	defer c.mu.Unlock()
 	if !c.closed {
 		c.closed = true
+		if connHook != nil {
+			connHook("close", nil)
+		}
 		c.t.mu.Lock()
 		c.t.Closed = true
 		c.t.Events = append(c.t.Events, connEvent{Kind: "close"})
@@ -273,6 +281,9 @@ func newConnServer(cfg connCfg) *connServer {
 		tr, res := cs.tr, cs.res
 		hjWG := &cs.hjWG
 		var d dispatchRec
+		if connHook != nil {
+			connHook("dispatch", ctx)
+		}
 		d.Method = append([]byte(nil), ctx.Method()...)
 		d.URI = append([]byte(nil), ctx.RequestURI()...)
 		d.Host = append([]byte(nil), ctx.Host()...)
@@ -354,6 +365,9 @@ func newConnServer(cfg connCfg) *connServer {
 			if q.Has("hjn") {
 				ctx.HijackSetNoResponse(true)
 			}
+		}
+		if connHook != nil {
+			connHook("options", ctx)
 		}
 		if q.Has("te") {
 			ctx.TimeoutError("timed out!")
